@@ -28,6 +28,26 @@ def oracle(f, c):
     return None
 
 
+class ambient:
+    """process-wide arithmetic settings a host application may have changed (the hash is integer arithmetic: none of them may matter)"""
+
+    def __init__(self, name):
+        self.name = name
+
+    def __enter__(self):
+        import decimal
+        self.old = decimal.getcontext()
+        if self.name:
+            c = decimal.Context(prec=3, rounding=decimal.ROUND_UP, Emin=-9, Emax=9)
+            decimal.setcontext(c)
+        return self
+
+    def __exit__(self, *a):
+        import decimal
+        decimal.setcontext(self.old)
+        return False
+
+
 def scan(f, lo, hi):
     for c in range(lo, hi):
         h = f(c)
@@ -84,6 +104,16 @@ def run(tier):
             if nbad >= 1:
                 break
     C.stream('oracle.sample', len(ins), len(ins), sample=dict(challenge=ins[len(ins) // 2]))
+    # the same under a decimal context of 3 digits (a host application may have set one): integer arithmetic does not look at it
+    amb = sorted(set(ins[::max(1, len(ins) // 3000)]) | set(range(11091990, 11092130)) | {THREE_MAX - 1, 8999999, 9000000})
+    with ambient('decimal prec=3'):
+        for c in amb:
+            w = oracle(f, c)
+            if w and not C.violations:
+                C.violation("under decimal.setcontext(Context(prec=3, rounding=ROUND_UP)): " + w,
+                            dict(unit='server_verification_utils', input=dict(challenge=c, ambient='decimal prec=3')), key=f"challenge={c}")
+                break
+    C.stream('oracle.ambient-decimal-context', len(amb), len(amb), sample=dict(challenge=amb[len(amb) // 2], ambient='decimal prec=3'))
     if tier == 'thorough' and not C.violations:
         bad = exhaustive(C.scratch.src)
         C.stream('oracle.exhaustive', THREE_MAX, THREE_MAX, exhaustive=True, sample=dict(range=[0, THREE_MAX]))
@@ -126,6 +156,7 @@ def replay(path):
         return replay_broken(r, 'C11')
     s = Scratch()
     mod = load_leaf(s.src, 'eolib.encrypt.server_verification_utils')
-    w = oracle(mod.server_verification_hash, inp['challenge'])
+    with ambient(inp.get('ambient')):
+        w = oracle(mod.server_verification_hash, inp['challenge'])
     print("replay:", w or "property holds on this input")
     return 1 if w else 0
